@@ -8,9 +8,18 @@ use crate::wire::marshal::MarshalContext;
 use crate::wire::util::*;
 
 pub fn marshal_param(p: &params::Param, ctx: &mut MarshalContext) -> Result<(), MarshalError> {
+    marshal_param_at_depth(p, ctx, 0)
+}
+
+/// `depth` is the number of containers this param is nested in
+fn marshal_param_at_depth(
+    p: &params::Param,
+    ctx: &mut MarshalContext,
+    depth: usize,
+) -> Result<(), MarshalError> {
     match p {
         params::Param::Base(b) => marshal_base_param(b, ctx),
-        params::Param::Container(c) => marshal_container_param(c, ctx),
+        params::Param::Container(c) => marshal_container_param_at_depth(c, ctx, depth),
     }
 }
 
@@ -18,6 +27,7 @@ fn marshal_array(
     array: &[params::Param],
     sig: &signature::Type,
     ctx: &mut MarshalContext,
+    depth: usize,
 ) -> Result<(), MarshalError> {
     ctx.align_to(4);
     let len_pos = ctx.buf.len();
@@ -29,34 +39,42 @@ fn marshal_array(
     ctx.align_to(sig.get_alignment());
     let content_pos = ctx.buf.len();
     for p in array {
-        marshal_param(p, ctx)?;
+        marshal_param_at_depth(p, ctx, depth)?;
     }
-    let len = ctx.buf.len() - content_pos;
-    insert_u32(
-        ctx.byteorder,
-        len as u32,
-        &mut ctx.buf[len_pos..len_pos + 4],
-    );
+    let len = check_marshalled_array_len(ctx.buf.len() - content_pos)?;
+    insert_u32(ctx.byteorder, len, &mut ctx.buf[len_pos..len_pos + 4]);
     Ok(())
 }
 
-fn marshal_struct(params: &[params::Param], ctx: &mut MarshalContext) -> Result<(), MarshalError> {
+fn marshal_struct(
+    params: &[params::Param],
+    ctx: &mut MarshalContext,
+    depth: usize,
+) -> Result<(), MarshalError> {
     ctx.align_to(8);
     for p in params {
-        marshal_param(p, ctx)?;
+        marshal_param_at_depth(p, ctx, depth)?;
     }
     Ok(())
 }
 
-fn marshal_variant(var: &params::Variant, ctx: &mut MarshalContext) -> Result<(), MarshalError> {
+fn marshal_variant(
+    var: &params::Variant,
+    ctx: &mut MarshalContext,
+    depth: usize,
+) -> Result<(), MarshalError> {
     let mut sig_str = String::new();
     var.sig.to_str(&mut sig_str);
     marshal_signature(&sig_str, ctx.buf)?;
-    marshal_param(&var.value, ctx)?;
+    marshal_param_at_depth(&var.value, ctx, depth)?;
     Ok(())
 }
 
-fn marshal_dict(dict: &params::DictMap, ctx: &mut MarshalContext) -> Result<(), MarshalError> {
+fn marshal_dict(
+    dict: &params::DictMap,
+    ctx: &mut MarshalContext,
+    depth: usize,
+) -> Result<(), MarshalError> {
     ctx.align_to(4);
     let len_pos = ctx.buf.len();
     // placeholder. The lenght will be written here later
@@ -70,14 +88,10 @@ fn marshal_dict(dict: &params::DictMap, ctx: &mut MarshalContext) -> Result<(), 
         // elements are aligned to 8
         ctx.align_to(8);
         marshal_base_param(key, ctx)?;
-        marshal_param(value, ctx)?;
+        marshal_param_at_depth(value, ctx, depth)?;
     }
-    let len = ctx.buf.len() - content_pos;
-    insert_u32(
-        ctx.byteorder,
-        len as u32,
-        &mut ctx.buf[len_pos..len_pos + 4],
-    );
+    let len = check_marshalled_array_len(ctx.buf.len() - content_pos)?;
+    insert_u32(ctx.byteorder, len, &mut ctx.buf[len_pos..len_pos + 4]);
     Ok(())
 }
 
@@ -85,31 +99,45 @@ pub fn marshal_container_param(
     p: &params::Container,
     ctx: &mut MarshalContext,
 ) -> Result<(), MarshalError> {
+    marshal_container_param_at_depth(p, ctx, 0)
+}
+
+fn marshal_container_param_at_depth(
+    p: &params::Container,
+    ctx: &mut MarshalContext,
+    depth: usize,
+) -> Result<(), MarshalError> {
+    // messages must not nest containers deeper than the protocol allows
+    if depth >= crate::wire::MAX_NESTING_DEPTH {
+        return Err(MarshalError::NestingTooDeep);
+    }
+    // the depth of everything inside of this container
+    let depth = depth + 1;
     match p {
         params::Container::Array(params) => {
             params::validate_array(&params.values, &params.element_sig)?;
-            marshal_array(&params.values, &params.element_sig, ctx)?;
+            marshal_array(&params.values, &params.element_sig, ctx, depth)?;
         }
         params::Container::ArrayRef(params) => {
             params::validate_array(params.values, &params.element_sig)?;
-            marshal_array(params.values, &params.element_sig, ctx)?;
+            marshal_array(params.values, &params.element_sig, ctx, depth)?;
         }
         params::Container::Struct(params) => {
-            marshal_struct(params, ctx)?;
+            marshal_struct(params, ctx, depth)?;
         }
         params::Container::StructRef(params) => {
-            marshal_struct(params, ctx)?;
+            marshal_struct(params, ctx, depth)?;
         }
         params::Container::Dict(params) => {
             params::validate_dict(&params.map, params.key_sig, &params.value_sig)?;
-            marshal_dict(&params.map, ctx)?;
+            marshal_dict(&params.map, ctx, depth)?;
         }
         params::Container::DictRef(params) => {
             params::validate_dict(params.map, params.key_sig, &params.value_sig)?;
-            marshal_dict(params.map, ctx)?;
+            marshal_dict(params.map, ctx, depth)?;
         }
         params::Container::Variant(variant) => {
-            marshal_variant(variant, ctx)?;
+            marshal_variant(variant, ctx, depth)?;
         }
     }
     Ok(())
